@@ -99,6 +99,9 @@ func genC11(seed uint64, run int, tier string) *RunSpec {
 	}
 	spec.Property = "C11"
 	spec.Seed, spec.Run = seed, run
+	if r.Chance(8) && fam != 9 {
+		spec.Engine.MtimeJitter = true // files whose modification time moves on at every look
+	}
 	return spec
 }
 
@@ -356,7 +359,7 @@ func genC11Less(r *Rand) *RunSpec {
 	g.Feat = map[string]bool{}
 	g.Eng.Less = true
 	spec := &RunSpec{Family: "c11-less"}
-	shape := r.Intn(6)
+	shape := r.Intn(8)
 	switch shape {
 	case 0:
 		g.put("a.less", "@import \"a.less\";\n.a { color: blue; }\n")
@@ -376,6 +379,13 @@ func genC11Less(r *Rand) *RunSpec {
 		g.put("side/x.less", "@import \"../a.less\";\n.x { color: green; }\n")
 	case 5:
 		g.put("a.less", "@import \"a.less\";\n@import \"a.less\";\n")
+	case 6: // a cycle through files that are not named *.less
+		g.put("a.less", "@import \"loop.css\";\n.a { color: blue; }\n")
+		g.put("loop.css", "@import \"loop.inc\";\n.c { color: red; }\n")
+		g.put("loop.inc", "@import \"loop.css\";\n.i { color: green; }\n")
+	case 7:
+		g.put("a.less", "@import \"self\";\n")
+		g.put("self", "@import \"self\";\n.s { margin: 0; }\n")
 	}
 	body := "<main>\n<style type=\"text/css+less\">\n@import \"a.less\";\n.x { color: red; }\n</style>\n<p>{{ title }}</p>\n</main>\n"
 	g.put("pages/page.vuego", body)
@@ -414,6 +424,8 @@ func genC11Hostile(r *Rand) *RunSpec {
 		`<p v-show="user">u</p>`,
 		`<template include="components/Card.vuego" :title="items" :body="m"></template>`,
 		`<p>{{ items[0][0][0] }} {{ m.k1.k2.k3 }} {{ n.x }} {{ title[5] }}</p>`,
+		`<p>{{ items['] }} {{ user["] }} {{ m[' }} {{ m['k1] }} {{ items[ }}</p>`,
+		`<p v-for="x in items[']">{{ x }}</p><p v-if="user[']">u</p><template :x="user[']"><i>{{ x }}</i></template>`,
 		`<p>{{ title + n }} {{ items + 1 }} {{ user > 3 }}</p>`,
 		`<template :x="jsonFile(n)"><i>{{ x }}</i></template>`,
 		`<p>{{ formatTime(n, title) }} {{ n | formatDate }}</p>`,
